@@ -140,6 +140,45 @@ pub fn load_mode(mode: &str, file: &[u8], ext: &str, opts_flatten: bool) -> Stri
                 }
             }
         }),
+        "rbc" => {
+            // read_from_reader over a BufReader with a tiny capacity: refills everywhere
+            let cap = parts[1].parse::<usize>().unwrap();
+            let path = tmp_file(file, ext);
+            let res = guarded(|| {
+                let f = std::io::BufReader::with_capacity(cap, std::fs::File::open(&path).unwrap());
+                match simple::read_from_reader(f) {
+                    Ok(mut w) => waveform_obs(&mut w),
+                    Err(_) => "ERR".to_string(),
+                }
+            });
+            let _ = std::fs::remove_file(&path);
+            res
+        }
+        "hbc" => {
+            // two-phase API over a small-capacity BufReader<File>, with (1) or without (0) progress counter
+            let cap = parts[1].parse::<usize>().unwrap();
+            let progress = if parts[2] == "1" { Some(std::sync::Arc::new(AtomicU64::new(0))) } else { None };
+            let path = tmp_file(file, ext);
+            let res = guarded(|| {
+                let f = std::io::BufReader::with_capacity(cap, std::fs::File::open(&path).unwrap());
+                match viewers::read_header(f, &opts) {
+                    Err(_) => "ERR".to_string(),
+                    Ok(header) => {
+                        let body_len = header.body_len;
+                        match viewers::read_body(header.body, &header.hierarchy, progress) {
+                            Err(_) => "ERR".to_string(),
+                            Ok(body) => format!(
+                                "{} bl={:x}",
+                                body_result_obs(&header.hierarchy, body.source, &body.time_table),
+                                body_len
+                            ),
+                        }
+                    }
+                }
+            });
+            let _ = std::fs::remove_file(&path);
+            res
+        }
         "hf" => {
             opts.multi_thread = parts[1] == "1";
             let path = tmp_file(file, ext);
@@ -169,4 +208,116 @@ pub fn run_vcd(args: &[&str]) -> String {
     let mut file = bytes_of_hex(args[2]);
     file.extend_from_slice(&bytes_of_hex(args[3]));
     load_mode(mode, &file, "vcd", false)
+}
+
+
+/// `file <mode> <path> [full]`: loads any waveform file through the entry point `mode` and prints a digest
+/// of the complete observation (hierarchy with attributes, time table, every signal); `full` prints it all.
+pub fn run_file(args: &[&str]) -> String {
+    use std::hash::{Hash, Hasher};
+    let mode = args[0];
+    let bytes = std::fs::read(args[1]).unwrap();
+    let ext = args[1].rsplit('.').next().unwrap_or("bin");
+    let full = args.get(2).map(|s| *s == "full").unwrap_or(false);
+    let obs = load_mode_full(mode, &bytes, ext);
+    if full || !obs.starts_with("H=") {
+        return obs;
+    }
+    let mut h = std::collections::hash_map::DefaultHasher::new();
+    obs.split(" bl=").next().unwrap().hash(&mut h);
+    let bl = obs.split(" bl=").nth(1).map(|s| format!(" bl={}", s)).unwrap_or_default();
+    format!("digest={:016x} len={}{}", h.finish(), obs.split(" bl=").next().unwrap().len(), bl)
+}
+
+fn two_phase<R: std::io::BufRead + std::io::Seek + Sync + Send + 'static>(
+    header: viewers::HeaderResult<R>,
+    progress: Option<viewers::ProgressCount>,
+) -> String {
+        let body_len = header.body_len;
+        let hobs = crate::hier::hierarchy_obs(&header.hierarchy, true).replace(' ', ";");
+        let meta = format!(
+            "date={} version={} ts={:?} fmt={:?}",
+            hex_of_bytes(header.hierarchy.date().as_bytes()),
+            hex_of_bytes(header.hierarchy.version().as_bytes()),
+            header.hierarchy.timescale(),
+            header.hierarchy.file_format()
+        )
+        .replace(' ', "_");
+        match viewers::read_body(header.body, &header.hierarchy, progress) {
+            Err(_) => "ERR".to_string(),
+            Ok(body) => format!(
+                "H={} M={} {} bl={:x}",
+                hobs,
+                meta,
+                body_result_obs(&header.hierarchy, body.source, &body.time_table),
+                body_len
+            ),
+        }
+    }
+
+/// like `load_mode` but the observation also contains the hierarchy
+pub fn load_mode_full(mode: &str, file: &[u8], ext: &str) -> String {
+    let parts: Vec<&str> = mode.split(':').collect();
+    let mut opts = LoadOptions::default();
+    let wave_full = |w: &mut simple::Waveform| -> String {
+        let h = crate::hier::hierarchy_obs(w.hierarchy(), true);
+        let meta = format!(
+            "date={} version={} ts={:?} fmt={:?}",
+            hex_of_bytes(w.hierarchy().date().as_bytes()),
+            hex_of_bytes(w.hierarchy().version().as_bytes()),
+            w.hierarchy().timescale(),
+            w.hierarchy().file_format()
+        )
+        .replace(' ', "_");
+        format!("H={} M={} {}", h.replace(' ', ";"), meta, waveform_obs(w))
+    };
+    let path = tmp_file(file, ext);
+    let res = guarded(|| match parts[0] {
+        "st" | "mt" => {
+            opts.multi_thread = parts[0] == "mt";
+            match simple::read_with_options(&path, &opts) {
+                Ok(mut w) => wave_full(&mut w),
+                Err(_) => "ERR".to_string(),
+            }
+        }
+        "rd" => match simple::read_from_reader(std::io::Cursor::new(file.to_vec())) {
+            Ok(mut w) => wave_full(&mut w),
+            Err(_) => "ERR".to_string(),
+        },
+        "rbc" => {
+            let cap = parts[1].parse::<usize>().unwrap();
+            let f = std::io::BufReader::with_capacity(cap, std::fs::File::open(&path).unwrap());
+            match simple::read_from_reader(f) {
+                Ok(mut w) => wave_full(&mut w),
+                Err(_) => "ERR".to_string(),
+            }
+        }
+        "hc" => {
+            let progress = if parts.get(1) == Some(&"1") { Some(std::sync::Arc::new(AtomicU64::new(0))) } else { None };
+            match viewers::read_header(std::io::Cursor::new(file.to_vec()), &opts) {
+                Err(_) => "ERR".to_string(),
+                Ok(header) => two_phase(header, progress),
+            }
+        }
+        "hbc" => {
+            let cap = parts[1].parse::<usize>().unwrap();
+            let progress = if parts[2] == "1" { Some(std::sync::Arc::new(AtomicU64::new(0))) } else { None };
+            let f = std::io::BufReader::with_capacity(cap, std::fs::File::open(&path).unwrap());
+            match viewers::read_header(f, &opts) {
+                Err(_) => "ERR".to_string(),
+                Ok(header) => two_phase(header, progress),
+            }
+        }
+        "hf" => {
+            opts.multi_thread = parts[1] == "1";
+            let progress = if parts.get(2) == Some(&"1") { Some(std::sync::Arc::new(AtomicU64::new(0))) } else { None };
+            match viewers::read_header_from_file(&path, &opts) {
+                Err(_) => "ERR".to_string(),
+                Ok(header) => two_phase(header, progress),
+            }
+        }
+        _ => "BADMODE".to_string(),
+    });
+    let _ = std::fs::remove_file(&path);
+    res
 }
